@@ -178,6 +178,7 @@ Vectors == Requests \cup Configs
 (* outcome and its normalised cause.                                        *)
 
 Dev(n, w) == [dev |-> n, outcome |-> "crash", why |-> w]
+Hang(n, w) == [dev |-> n, outcome |-> "hang", why |-> w]
 
 IsCfg(x, p, y) == x.kind = "cfg" /\ x.param \in p /\ x.val \in y
 
@@ -219,6 +220,18 @@ KnownDevs(x) ==
   \* a msgpack element count sizes an allocation before the elements have been seen: 5 to 8 bytes ask for terabytes
   (IF x.kind = "req" /\ x.shape = "lenbomb"
      THEN {Dev(IF x.ep = "event" THEN "req-msgpack-count-event" ELSE "req-msgpack-count-batch", "fatal: out of memory")} ELSE {})
+  \cup
+  \* nesting without a depth limit (the members with 10^6 / 2*10^5 levels are only sent at the base combination of
+  \* the thorough tier): /1/events hands msgpack to a recursive generic decoder, the goroutine stack hits its 1 GB
+  \* limit (or the address-space limit first); an OTLP trace attribute that is a kvlist nested 200 000 deep (3 MB)
+  \* costs gigabytes in the translation to events
+  (IF x.kind = "req" /\ x.shape = "deep" /\ x.comp = "none" /\ x.hdr = "key" /\ x.ep = "event" /\ x.ctype = "msgpack"
+     THEN {Dev("req-msgpack-depth-event", "fatal: out of memory"), Dev("req-msgpack-depth-event", "fatal: stack overflow")} ELSE {})
+  \cup
+  (IF x.kind = "req" /\ x.shape = "deep" /\ x.comp = "none" /\ x.hdr = "key" /\ x.ep \in {"otlp-http-traces", "otlp-grpc-traces"} /\ x.ctype = "protobuf"
+     THEN {Dev("req-otlp-kvlist-depth", "fatal: out of memory"), Dev("req-otlp-kvlist-depth", "fatal: stack overflow"),
+           Hang("req-otlp-kvlist-depth", "request not answered within the deadline"),
+           Hang("req-otlp-kvlist-depth", "vector not finished within the deadline")} ELSE {})
 
 -----------------------------------------------------------------------------
 
